@@ -1037,4 +1037,520 @@ bytes (a fresh message object per delivery) -/
 def hubDeliver {α : Type} (decode : Bytes → α) (arrivals : List (Nat × Bytes)) : List (Nat × α) :=
   arrivals.map fun a => (a.1, decode a.2)
 
+/-! ### the least-ratio choice -/
+
+theorem frac_step (a p b q c r : Nat) (hp : 0 < p) (hq : 0 < q)
+    (h1 : b * p ≤ a * q) (h2 : c * q < b * r) : c * p < a * r := by
+  have e1 : c * q * p < b * r * p := (Nat.mul_lt_mul_right hp).mpr h2
+  have e2 : b * p * r ≤ a * q * r := Nat.mul_le_mul_right r h1
+  have e3 : c * p * q < a * r * q := by
+    have : c * p * q = c * q * p := by rw [Nat.mul_right_comm]
+    have : b * r * p = b * p * r := by rw [Nat.mul_right_comm]
+    have : a * q * r = a * r * q := by rw [Nat.mul_right_comm]
+    omega
+  exact (Nat.mul_lt_mul_right hq).mp e3
+
+/-- what `pickLeast` returns is a pending channel that no pending channel beats strictly -/
+theorem pickLeast_spec :
+    ∀ (l : List PCh) (init : Option PCh) (seen : List PCh),
+      (∀ x ∈ l, 0 < x.prio) → (∀ x ∈ seen, 0 < x.prio) →
+      (∀ b, init = some b → b ∈ seen ∧ ∀ x ∈ seen, ¬ better x b = true) →
+      (init = none → seen = []) →
+      ∀ d, l.foldl (fun best ch =>
+          match best with
+          | none => some ch
+          | some b => if better ch b then some ch else some b) init = some d →
+        d ∈ seen ++ l ∧ ∀ x ∈ seen ++ l, ¬ better x d = true := by
+  intro l
+  induction l with
+  | nil =>
+    intro init seen _ _ hinv _ d hd
+    simp only [List.foldl_nil] at hd
+    simpa using hinv d hd
+  | cons ch l ih =>
+    intro init seen hl hs hinv hnone d hd
+    simp only [List.foldl_cons] at hd
+    have hch : 0 < ch.prio := hl ch (by simp)
+    have hl' : ∀ x ∈ l, 0 < x.prio := fun x hx => hl x (by simp [hx])
+    have hs' : ∀ x ∈ seen ++ [ch], 0 < x.prio := by
+      intro x hx
+      rcases List.mem_append.mp hx with h | h
+      · exact hs x h
+      · simp at h; subst h; exact hch
+    have irr : ¬ better ch ch = true := by simp [better]
+    cases init with
+    | none =>
+      have hse := hnone rfl
+      subst hse
+      have := ih (some ch) [ch] hl' (by simpa using hch)
+        (by intro b hb; cases hb; exact ⟨by simp, by intro x hx; simp at hx; subst hx; exact irr⟩)
+        (by intro h; cases h) d hd
+      simpa using this
+    | some b =>
+      obtain ⟨hbm, hbmin⟩ := hinv b rfl
+      have hbp : 0 < b.prio := hs b hbm
+      by_cases hb : better ch b = true
+      · simp only [hb, if_true] at hd
+        have := ih (some ch) (seen ++ [ch]) hl' hs'
+          (by
+            intro b' hb'; cases hb'
+            refine ⟨by simp, ?_⟩
+            intro x hx
+            rcases List.mem_append.mp hx with h | h
+            · have hxb := hbmin x h
+              have hxp := hs x h
+              simp only [better, decide_eq_true_eq, Nat.not_lt] at hxb hb ⊢
+              exact Nat.le_of_lt (frac_step x.recentlySent x.prio b.recentlySent b.prio ch.recentlySent ch.prio hxp hbp hxb hb)
+            · simp at h; subst h; exact irr)
+          (by intro h; cases h) d hd
+        simpa [List.append_assoc] using this
+      · simp only [hb, if_false] at hd
+        have := ih (some b) (seen ++ [ch]) hl' hs'
+          (by
+            intro b' hb'; cases hb'
+            refine ⟨by simp [hbm], ?_⟩
+            intro x hx
+            rcases List.mem_append.mp hx with h | h
+            · exact hbmin x h
+            · simp at h; subst h; exact hb)
+          (by intro h; cases h) d hd
+        simpa [List.append_assoc] using this
+
+
+/-- how many more times channel `x` can be chosen before `c`: `x` is chosen ahead of `c` only while
+`ratio_x ≤ ratio_c`, i.e. `x.recentlySent ≤ c.recentlySent * x.prio / c.prio`, and every choice
+adds at least one byte to `x.recentlySent` -/
+def owe (c x : PCh) : Nat :=
+  if x.id = c.id then 0 else c.recentlySent * x.prio / c.prio + 1 - x.recentlySent
+
+/-- bound on the number of send steps a pending channel `c` can be passed over -/
+def waitBound (c : PCh) (chans : List PCh) : Nat := (chans.map (owe c)).sum
+
+/-- the channels chosen by a run of send steps -/
+def picks : List PCh → List ((Nat → Bool) × Nat) → List (Option Nat)
+  | _, [] => []
+  | chans, s :: rest => (schedStep chans s.1 s.2).2 :: picks (schedStep chans s.1 s.2).1 rest
+
+theorem sum_map_lt {α : Type} (f g : α → Nat) : ∀ (l : List α), (∀ x ∈ l, g x ≤ f x) →
+    (∃ d ∈ l, g d + 1 ≤ f d) → (l.map g).sum + 1 ≤ (l.map f).sum := by
+  intro l
+  induction l with
+  | nil => intro _ h; obtain ⟨d, hd, _⟩ := h; cases hd
+  | cons a as ih =>
+    intro hle hex
+    simp only [List.map_cons, List.sum_cons]
+    have ha := hle a (by simp)
+    have hrest : ∀ x ∈ as, g x ≤ f x := fun x hx => hle x (by simp [hx])
+    have hsum : (as.map g).sum ≤ (as.map f).sum := by
+      clear ih hex
+      induction as with
+      | nil => simp
+      | cons b bs ihb =>
+        simp only [List.map_cons, List.sum_cons]
+        have := hrest b (by simp)
+        have := ihb (fun x hx => hle x (by simp at hx ⊢; rcases hx with h | h <;> simp [h]))
+          (fun x hx => hrest x (by simp [hx]))
+        omega
+    obtain ⟨d, hd, hlt⟩ := hex
+    rcases List.mem_cons.mp hd with h | h
+    · subst h; omega
+    · have := ih hrest ⟨d, h, hlt⟩; omega
+
+theorem pickLeast_spec' (l : List PCh) (hl : ∀ x ∈ l, 0 < x.prio) (d : PCh) (h : pickLeast l = some d) :
+    d ∈ l ∧ ∀ x ∈ l, ¬ better x d = true := by
+  have := pickLeast_spec l none [] hl (by simp) (by intro b hb; cases hb) (fun _ => rfl) d h
+  simpa using this
+
+theorem pickLeast_none (l : List PCh) (h : pickLeast l = none) : l = [] := by
+  cases l with
+  | nil => rfl
+  | cons a as =>
+    exfalso
+    unfold pickLeast at h
+    simp only [List.foldl_cons] at h
+    -- once `some`, the fold stays `some`
+    have key : ∀ (as : List PCh) (b : PCh), ∃ d, as.foldl (fun best ch =>
+        match best with
+        | none => some ch
+        | some b => if better ch b then some ch else some b) (some b) = some d := by
+      intro as
+      induction as with
+      | nil => intro b; exact ⟨b, rfl⟩
+      | cons x xs ih =>
+        intro b
+        simp only [List.foldl_cons]
+        split
+        · exact ih x
+        · exact ih b
+    obtain ⟨d, hd⟩ := key as a
+    exact absurd (hd.symm.trans h) (by simp)
+
+/-- one send step that passes over the pending channel `c` lowers `waitBound` -/
+theorem step_lowers_bound (chans : List PCh) (c : PCh) (hc : c ∈ chans) (hprio : ∀ x ∈ chans, 0 < x.prio)
+    (pending : Nat → Bool) (n : Nat) (hp : pending c.id = true) (hn : 1 ≤ n) :
+    (schedStep chans pending n).2 = some c.id ∨
+    (waitBound c (schedStep chans pending n).1 + 1 ≤ waitBound c chans ∧
+      c ∈ (schedStep chans pending n).1 ∧ (∀ x ∈ (schedStep chans pending n).1, 0 < x.prio)) := by
+  unfold schedStep
+  have hcf : c ∈ chans.filter fun x => pending x.id := List.mem_filter.mpr ⟨hc, hp⟩
+  cases hpk : pickLeast (chans.filter fun x => pending x.id) with
+  | none => rw [pickLeast_none _ hpk] at hcf; cases hcf
+  | some d =>
+    simp only
+    by_cases hdc : d.id = c.id
+    · left; rw [hdc]
+    · right
+      obtain ⟨hdm, hmin⟩ := pickLeast_spec' _ (fun x hx => hprio x (List.mem_filter.mp hx).1) d hpk
+      have hdchans : d ∈ chans := (List.mem_filter.mp hdm).1
+      have hcd := hmin c hcf
+      simp only [better, decide_eq_true_eq, Nat.not_lt] at hcd
+      have hcp := hprio c hc
+      have hle : d.recentlySent ≤ c.recentlySent * d.prio / c.prio :=
+        (Nat.le_div_iff_mul_le hcp).mpr hcd
+      refine ⟨?_, ?_, ?_⟩
+      · unfold waitBound creditSent
+        rw [List.map_map]
+        apply sum_map_lt
+        · intro x _
+          simp only [Function.comp]
+          split
+          · unfold owe; simp only; split <;> omega
+          · exact Nat.le_refl _
+        · refine ⟨d, hdchans, ?_⟩
+          simp only [Function.comp, if_true]
+          unfold owe
+          simp only [hdc, if_false]
+          omega
+      · unfold creditSent
+        refine List.mem_map.mpr ⟨c, hc, ?_⟩
+        have : ¬ c.id = d.id := fun h => hdc h.symm
+        simp [this]
+      · intro x hx
+        unfold creditSent at hx
+        obtain ⟨y, hy, rfl⟩ := List.mem_map.mp hx
+        split
+        · exact hprio y hy
+        · exact hprio y hy
+
+/-- `sendPacketMsg`'s least-ratio rule is FAIR with a computable bound: a channel `c` that stays
+pending is chosen within `waitBound c chans + 1` send steps, whatever the other channels have
+pending and however large their packets are -/
+theorem bounded_wait (c : PCh) : ∀ (steps : List ((Nat → Bool) × Nat)) (chans : List PCh),
+    c ∈ chans → (∀ x ∈ chans, 0 < x.prio) → (∀ s ∈ steps, s.1 c.id = true ∧ 1 ≤ s.2) →
+    some c.id ∉ picks chans steps → steps.length ≤ waitBound c chans := by
+  intro steps
+  induction steps with
+  | nil => intro _ _ _ _ _; simp
+  | cons s rest ih =>
+    intro chans hc hprio hst hno
+    simp only [picks, List.mem_cons, not_or] at hno
+    obtain ⟨hp, hn⟩ := hst s (by simp)
+    rcases step_lowers_bound chans c hc hprio s.1 s.2 hp hn with h | ⟨h1, h2, h3⟩
+    · exact absurd h.symm hno.1
+    · have := ih _ h2 h3 (fun t ht => hst t (by simp [ht])) hno.2
+      simp only [List.length_cons]
+      omega
+
+
+/-! ### a prefix of the wire -/
+
+theorem reasm_append : ∀ (xs ys : List (Bool × Bytes)) (buf : Bytes),
+    reasm buf (xs ++ ys) =
+      ((reasm buf xs).1 ++ (reasm (reasm buf xs).2 ys).1, (reasm (reasm buf xs).2 ys).2) := by
+  intro xs
+  induction xs with
+  | nil => intro ys buf; simp [reasm]
+  | cons x xs ih =>
+    intro ys buf
+    obtain ⟨eof, d⟩ := x
+    cases eof
+    · simp only [List.cons_append, reasm, Bool.false_eq_true, if_false]
+      exact ih ys (buf ++ d)
+    · simp only [List.cons_append, reasm, if_true]
+      rw [ih ys []]
+
+theorem fits_append_left (cap : Nat) : ∀ (xs ys : List (Bool × Bytes)) (buf : Bytes),
+    fits cap buf (xs ++ ys) → fits cap buf xs := by
+  intro xs
+  induction xs with
+  | nil => intro _ _ _; trivial
+  | cons x xs ih =>
+    intro ys buf h
+    obtain ⟨eof, d⟩ := x
+    simp only [List.cons_append, fits] at h ⊢
+    exact ⟨h.1, ih ys _ h.2⟩
+
+theorem proj_app (id : Nat) (a b : List PacketMsg) : proj id (a ++ b) = proj id a ++ proj id b := by
+  simp [proj, List.filter_append, List.map_append]
+
+/-- the receive loop fed with ANY PREFIX of what the sender put on the wire (the link may have
+been cut anywhere) is still up and has delivered, per channel, a prefix of the accepted messages:
+nothing altered, nothing out of order, nothing twice -/
+theorem prefix_delivery (mx : Nat) (hmx : 0 < mx) (ds : List Desc) (hnd : (ds.map (·.id)).Nodup)
+    (hbyte : ∀ d ∈ ds, d.id ≤ 255) (ops : List SOp) (got rest : List PacketMsg)
+    (hpre : (runOps (Sender.new mx ds) {} ops).2.wire = got ++ rest)
+    (hcap : ∀ d ∈ ds, ∀ m ∈ delivered d.id (runOps (Sender.new mx ds) {} ops).2.acc,
+      m.length ≤ d.fillDefaults.recvMessageCapacity) :
+    (recvAll (Receiver.new mx ds) (msgFrames (fun p => packetSize p.chId.toNat p.eof p.data.length) got)).1.stopped = none ∧
+    ∀ d ∈ ds, ∃ more,
+      delivered d.id (runOps (Sender.new mx ds) {} ops).2.acc =
+        delivered d.id (recvAll (Receiver.new mx ds) (msgFrames (fun p => packetSize p.chId.toNat p.eof p.data.length) got)).2 ++ more := by
+  obtain ⟨hs0, hw0⟩ := new_inv mx ds hnd
+  obtain ⟨hS, hW, hM⟩ := runOps_inv (ds.map (·.id)) ops (Sender.new mx ds) {} hmx hs0 hw0
+  generalize runOps (Sender.new mx ds) {} ops = st at *
+  have hmax : st.1.maxSize = mx := hM
+  -- per channel: the projection of `got` is the head of the packetisation of the accepted messages
+  have hproj : ∀ d ∈ ds, ∃ tail, proj d.id got ++ tail = (delivered d.id st.2.acc).flatMap (packetize mx) := by
+    intro d hd
+    have : d.id ∈ st.1.chans.map (·.id) := by rw [hW.1]; exact List.mem_map.mpr ⟨d, hd, rfl⟩
+    obtain ⟨c, hc, hcid⟩ := List.mem_map.mp this
+    have h1 := hS.2 c hc
+    rw [hmax, hcid, hpre, proj_app, List.append_assoc] at h1
+    exact ⟨_, h1⟩
+  have hlook : ∀ id c, (Receiver.new mx ds).chans.find? (·.id = id) = some c →
+      ∃ d ∈ ds, d.id = id ∧ c.recving = [] ∧ c.cap = d.fillDefaults.recvMessageCapacity := by
+    intro id c hc
+    have hm := List.mem_of_find?_eq_some hc
+    have hi : c.id = id := by simpa using List.find?_some hc
+    simp only [Receiver.new, List.mem_map] at hm
+    obtain ⟨d, hd, rfl⟩ := hm
+    exact ⟨d, hd, hi, rfl, rfl⟩
+  have hsome : ∀ d ∈ ds, ((Receiver.new mx ds).chans.find? (·.id = d.id)).isSome := by
+    intro d hd
+    rw [List.find?_isSome]
+    exact ⟨RChan.new d, by simp only [Receiver.new]; exact List.mem_map.mpr ⟨d, hd, rfl⟩, by simp [RChan.new]⟩
+  have hspec := recvAll_spec (fun p => packetSize p.chId.toNat p.eof p.data.length) got
+    (Receiver.new mx ds) rfl
+    (by
+      intro p hp
+      obtain ⟨hlen, i, hi, hpi⟩ := hW.2 p (by rw [hpre]; simp [hp])
+      obtain ⟨d, hd, rfl⟩ := List.mem_map.mp hi
+      have hb := hbyte d hd
+      refine ⟨?_, by omega, by omega, ?_⟩
+      · show _ ≤ maxPacketMsgSize mx
+        apply packetSize_le
+        · rw [hpi]; simpa using hb
+        · rw [hmax] at hlen; exact hlen
+      · rw [hpi]; simpa using hsome d hd)
+    (by
+      intro id c hc
+      obtain ⟨d, hd, rfl, hr, hcp⟩ := hlook id c hc
+      obtain ⟨tail, ht⟩ := hproj d hd
+      rw [hr, hcp]
+      apply fits_append_left _ _ tail
+      rw [ht]
+      exact fits_flatMap_packetize mx _ hmx _ (hcap d hd))
+  refine ⟨hspec.1, ?_⟩
+  intro d hd
+  obtain ⟨c, hc⟩ := Option.isSome_iff_exists.mp (hsome d hd)
+  obtain ⟨d', hd', hid', hr, _⟩ := hlook d.id c hc
+  obtain ⟨tail, ht⟩ := hproj d hd
+  have h1 := (hspec.2 d.id c hc).1
+  rw [hr] at h1
+  have h2 := reasm_flatMap_packetize mx hmx (delivered d.id st.2.acc)
+  rw [← ht, reasm_append] at h2
+  have h3 := congrArg Prod.fst h2
+  simp only at h3
+  exact ⟨_, by rw [h1]; exact h3.symm⟩
+
+/-! ### frames in a byte stream -/
+
+/-- what the composition needs of the frame codec (uvarint length prefix + protobuf in the code):
+a frame followed by anything splits off exactly that frame; a strict prefix of a frame (the
+stream was cut inside it) is not a frame yet -/
+structure Framing (encF : PacketMsg → Bytes) (splitF : Bytes → Option (PacketMsg × Bytes)) : Prop where
+  split_enc : ∀ p rest, splitF (encF p ++ rest) = some (p, rest)
+  split_short : ∀ p b, b <+: encF p → b ≠ encF p → splitF b = none
+  enc_nonempty : ∀ p, encF p ≠ []
+
+/-- the frames `recvRoutine` gets out of the bytes it could read -/
+def parseFrames (splitF : Bytes → Option (PacketMsg × Bytes)) : Nat → Bytes → List PacketMsg
+  | 0, _ => []
+  | f+1, b =>
+    match splitF b with
+    | none => []
+    | some (p, rest) => p :: parseFrames splitF f rest
+
+theorem parse_prefix (encF : PacketMsg → Bytes) (splitF : Bytes → Option (PacketMsg × Bytes))
+    (hf : Framing encF splitF) :
+    ∀ (W : List PacketMsg) (b : Bytes) (fuel : Nat), b.length < fuel → b <+: W.flatMap encF →
+      ∃ rest, W = parseFrames splitF fuel b ++ rest := by
+  intro W
+  induction W with
+  | nil =>
+    intro b fuel hfuel hb
+    simp only [List.flatMap_nil, List.prefix_nil] at hb
+    subst hb
+    cases fuel with
+    | zero => omega
+    | succ f =>
+      -- `[]` is a strict prefix of any frame
+      have : splitF [] = none :=
+        hf.split_short ⟨0, false, []⟩ [] (List.nil_prefix) (fun h => hf.enc_nonempty _ h.symm)
+      exact ⟨[], by simp [parseFrames, this]⟩
+  | cons p W ih =>
+    intro b fuel hfuel hb
+    cases fuel with
+    | zero => omega
+    | succ f =>
+      rw [List.flatMap_cons] at hb
+      by_cases hlen : b.length < (encF p).length
+      · -- cut inside the first frame
+        have hpre : b <+: encF p := by
+          obtain ⟨t, ht⟩ := hb
+          have := List.prefix_of_prefix_length_le (l₁ := b) (l₂ := encF p) (l₃ := encF p ++ W.flatMap encF)
+            ⟨t, ht⟩ (List.prefix_append _ _) (Nat.le_of_lt hlen)
+          exact this
+        have hne : b ≠ encF p := fun h => by rw [h] at hlen; omega
+        exact ⟨p :: W, by simp [parseFrames, hf.split_short p b hpre hne]⟩
+      · -- the first frame is complete
+        obtain ⟨t, ht⟩ := hb
+        have hpre : encF p <+: b := by
+          have := List.prefix_of_prefix_length_le (l₁ := encF p) (l₂ := b) (l₃ := encF p ++ W.flatMap encF)
+            (List.prefix_append _ _) ⟨t, ht⟩ (by omega)
+          exact this
+        obtain ⟨b', hb'⟩ := hpre
+        subst hb'
+        have hb2 : b' <+: W.flatMap encF := by
+          rw [List.append_assoc] at ht
+          exact ⟨t, List.append_cancel_left ht⟩
+        have hne := hf.enc_nonempty p
+        have hl : 0 < (encF p).length := List.length_pos_iff.mpr hne
+        obtain ⟨rest, hr⟩ := ih b' f (by simp only [List.length_append] at hfuel; omega) hb2
+        refine ⟨rest, ?_⟩
+        simp only [parseFrames, hf.split_enc p b', List.cons_append]
+        rw [← hr]
+
+
+theorem parse_full (encF : PacketMsg → Bytes) (splitF : Bytes → Option (PacketMsg × Bytes))
+    (hf : Framing encF splitF) :
+    ∀ (W : List PacketMsg) (fuel : Nat), (W.flatMap encF).length < fuel →
+      parseFrames splitF fuel (W.flatMap encF) = W := by
+  intro W
+  induction W with
+  | nil =>
+    intro fuel hfuel
+    cases fuel with
+    | zero => omega
+    | succ f =>
+      have : splitF [] = none :=
+        hf.split_short ⟨0, false, []⟩ [] (List.nil_prefix) (fun h => hf.enc_nonempty _ h.symm)
+      simp [parseFrames, this]
+  | cons p W ih =>
+    intro fuel hfuel
+    cases fuel with
+    | zero => omega
+    | succ f =>
+      have hl : 0 < (encF p).length := List.length_pos_iff.mpr (hf.enc_nonempty p)
+      rw [List.flatMap_cons] at hfuel ⊢
+      simp only [parseFrames, hf.split_enc p]
+      rw [ih f (by simp only [List.length_append] at hfuel; omega)]
+
+/-! a concrete frame codec satisfying `Framing` (unary length prefix; for non-vacuity only) -/
+
+def natU (n : Nat) : Bytes := List.replicate n 1 ++ [0]
+
+def readU : Bytes → Option (Nat × Bytes)
+  | [] => none
+  | b :: r => if b = 0 then some (0, r) else if b = 1 then (readU r).map fun x => (x.1 + 1, x.2) else none
+
+theorem readU_natU (n : Nat) (r : Bytes) : readU (natU n ++ r) = some (n, r) := by
+  induction n with
+  | zero => simp [natU, readU]
+  | succ k ih =>
+    have : natU (k + 1) ++ r = 1 :: (natU k ++ r) := by simp [natU, List.replicate_succ]
+    rw [this]
+    simp [readU, ih]
+
+theorem readU_cut (n : Nat) : ∀ (b : Bytes), b <+: natU n → b ≠ natU n → readU b = none := by
+  induction n with
+  | zero =>
+    intro b hb hne
+    cases b with
+    | nil => rfl
+    | cons x xs =>
+      exfalso
+      simp only [natU, List.replicate_zero, List.nil_append] at hb hne
+      obtain ⟨t, ht⟩ := hb
+      cases xs with
+      | nil => simp at ht; exact hne (by simp [ht.1])
+      | cons y ys => simp at ht
+  | succ k ih =>
+    intro b hb hne
+    have hk : natU (k + 1) = 1 :: natU k := by simp [natU, List.replicate_succ]
+    rw [hk] at hb hne
+    cases b with
+    | nil => rfl
+    | cons x xs =>
+      obtain ⟨t, ht⟩ := hb
+      simp only [List.cons_append, List.cons.injEq] at ht
+      obtain ⟨rfl, ht2⟩ := ht
+      have := ih xs ⟨t, ht2⟩ (fun h => hne (by rw [h]))
+      simp [readU, this]
+
+def payloadOf (p : PacketMsg) : Bytes :=
+  natU (if p.chId < 0 then 1 else 0) ++ natU p.chId.natAbs ++ natU (if p.eof then 1 else 0) ++ p.data
+
+def decPayload (b : Bytes) : Option PacketMsg := do
+  let (s, r1) ← readU b
+  let (a, r2) ← readU r1
+  let (e, r3) ← readU r2
+  pure { chId := if s = 1 then -(a : Int) else (a : Int), eof := e = 1, data := r3 }
+
+theorem decPayload_payloadOf (p : PacketMsg) : decPayload (payloadOf p) = some p := by
+  obtain ⟨ch, eof, data⟩ := p
+  unfold decPayload payloadOf
+  simp only [List.append_assoc]
+  by_cases h : ch < 0
+  · cases eof <;> simp [h, readU_natU] <;> omega
+  · cases eof <;> simp [h, readU_natU] <;> omega
+
+def toyEncF (p : PacketMsg) : Bytes := natU (payloadOf p).length ++ payloadOf p
+
+def toySplitF (b : Bytes) : Option (PacketMsg × Bytes) :=
+  match readU b with
+  | none => none
+  | some (n, r) =>
+    if r.length < n then none
+    else (decPayload (r.take n)).map fun p => (p, r.drop n)
+
+theorem toy_framing : Framing toyEncF toySplitF := by
+  refine ⟨?_, ?_, ?_⟩
+  · intro p rest
+    unfold toySplitF toyEncF
+    rw [List.append_assoc, readU_natU]
+    simp [decPayload_payloadOf]
+  · intro p b hb hne
+    unfold toySplitF
+    unfold toyEncF at hb hne
+    by_cases hlen : b.length < (natU (payloadOf p).length).length
+    · -- cut inside the length prefix
+      have hpre : b <+: natU (payloadOf p).length :=
+        List.prefix_of_prefix_length_le hb (List.prefix_append _ _) (Nat.le_of_lt hlen)
+      have : b ≠ natU (payloadOf p).length := fun h => by rw [h] at hlen; omega
+      rw [readU_cut _ b hpre this]
+    · have hpre : natU (payloadOf p).length <+: b :=
+        List.prefix_of_prefix_length_le (List.prefix_append _ _) hb (by omega)
+      obtain ⟨r, hr⟩ := hpre
+      subst hr
+      rw [readU_natU]
+      simp only
+      obtain ⟨t, ht⟩ := hb
+      rw [List.append_assoc] at ht
+      have ht2 := List.append_cancel_left ht
+      have hlt : r.length < (payloadOf p).length := by
+        have := congrArg List.length ht2
+        simp only [List.length_append] at this
+        have hne2 : t ≠ [] := by
+          intro h; subst h
+          simp only [List.append_nil] at ht2
+          exact hne (by rw [ht2])
+        have : 0 < t.length := List.length_pos_iff.mpr hne2
+        omega
+      simp [hlt]
+  · intro p h
+    unfold toyEncF natU at h
+    simp at h
+
+
 end Tmv.MConn
